@@ -71,6 +71,8 @@ func statusModel(exp expectation) string {
 		switch {
 		case exp.BodyClass == "nonjson" || exp.BodyClass == "body-read-fails" || exp.BodyClass == "not-an-object":
 			return "error|400"
+		case exp.BodyClass == "no-actor" || exp.BodyClass == "empty-actor" || exp.BodyClass == "idless-actor":
+			return "" // nobody the block check could be asked about: left open
 		case exp.BodyClass == "no-type" || exp.BodyClass == "no-context":
 			return "" // neither "unknown type" nor well-formed: left open
 		case exp.BodyClass == "callback-says-object-required" || exp.BodyClass == "callback-says-target-required":
